@@ -204,3 +204,187 @@ def derives(productions, start, tokens):
                             chart[i].add(item)
                             work.append(item)
     return any(l == start and d == len(r) and o == 0 for (l, r, d, o) in chart[n])
+
+
+# ------------------------------------------------------------------------------------------------------------------------------
+# The parser PLY generates from the extracted productions: LALR(1) table (canonical LR(1) item sets merged by core) with yacc's
+# conflict resolution (precedence of the token against the precedence of the rule; shift when neither has one; of two reductions
+# the rule written first).  `lr_accepts` runs that automaton on a sequence of token NAMES - an evaluation of the extracted table,
+# not of mpilot.
+class LRTable(object):
+    def __init__(self, productions, start, precedence, merge=True):
+        self.merge = merge
+        self.prods = [("S'", (start,), None, 0)] + [(p.lhs, tuple(p.rhs), p.prec, getattr(p.func, "lineno", 0) * 100 + p.alt) for p in productions]
+        self.nts = {p[0] for p in self.prods}
+        self.prec = {}
+        for level, row in enumerate(precedence, 1):
+            for t in row[1:]:
+                self.prec[t] = (row[0], level)
+        self.conflicts = []  # (state, token, kind, chosen, production)
+        self._first()
+        self._build()
+
+    def _first(self):
+        self.nullable = set()
+        ch = True
+        while ch:
+            ch = False
+            for lhs, rhs, _p, _l in self.prods:
+                if lhs not in self.nullable and all(s in self.nullable for s in rhs):
+                    self.nullable.add(lhs)
+                    ch = True
+        self.first = {n: set() for n in self.nts}
+        ch = True
+        while ch:
+            ch = False
+            for lhs, rhs, _p, _l in self.prods:
+                for s in rhs:
+                    add = self.first[s] if s in self.nts else {s}
+                    if not add <= self.first[lhs]:
+                        self.first[lhs] |= add
+                        ch = True
+                    if s not in self.nullable:
+                        break
+
+    def _first_seq(self, seq, la):
+        out = set()
+        for s in seq:
+            if s in self.nts:
+                out |= self.first[s]
+                if s not in self.nullable:
+                    return out
+            else:
+                out.add(s)
+                return out
+        out.add(la)
+        return out
+
+    def _closure(self, items):
+        items = set(items)
+        work = list(items)
+        by_lhs = {}
+        for i, p in enumerate(self.prods):
+            by_lhs.setdefault(p[0], []).append(i)
+        while work:
+            pi, dot, la = work.pop()
+            rhs = self.prods[pi][1]
+            if dot < len(rhs) and rhs[dot] in self.nts:
+                for la2 in self._first_seq(rhs[dot + 1:], la):
+                    for pj in by_lhs[rhs[dot]]:
+                        it = (pj, 0, la2)
+                        if it not in items:
+                            items.add(it)
+                            work.append(it)
+        return frozenset(items)
+
+    def _build(self):
+        start = self._closure({(0, 0, "$end")})
+        states = {start: 0}
+        order = [start]
+        trans = {}
+        i = 0
+        while i < len(order):
+            st = order[i]
+            moves = {}
+            for pi, dot, la in st:
+                rhs = self.prods[pi][1]
+                if dot < len(rhs):
+                    moves.setdefault(rhs[dot], set()).add((pi, dot + 1, la))
+            for sym, kern in moves.items():
+                nxt = self._closure(kern)
+                if nxt not in states:
+                    states[nxt] = len(order)
+                    order.append(nxt)
+                trans[(i, sym)] = states[nxt]
+            i += 1
+            if len(order) > 20000:
+                raise AnalysisError("LR(1) construction exceeds 20000 states")
+        # merge by core
+        core_id = {}
+        merged = []
+        of = {}
+        for n, st in enumerate(order):
+            core = frozenset((pi, dot) for pi, dot, _la in st) if self.merge else st
+            if core not in core_id:
+                core_id[core] = len(merged)
+                merged.append(set())
+            of[n] = core_id[core]
+            merged[of[n]] |= st
+        self.goto = {}
+        for (n, sym), m in trans.items():
+            self.goto[(of[n], sym)] = of[m]
+        self.action = []
+        for s, st in enumerate(merged):
+            act = {}
+            shifts = {}
+            reduces = {}
+            for pi, dot, la in st:
+                rhs = self.prods[pi][1]
+                if dot < len(rhs):
+                    if rhs[dot] not in self.nts:
+                        shifts[rhs[dot]] = self.goto[(s, rhs[dot])]
+                else:
+                    reduces.setdefault(la, set()).add(pi)
+            for a, ps in reduces.items():
+                p = min(ps, key=lambda k: (self.prods[k][3], k))
+                if len(ps) > 1:
+                    self.conflicts.append((s, a, "reduce/reduce", p, sorted(ps)))
+                if p == 0:
+                    act[a] = ("accept",)
+                    continue
+                if a in shifts:
+                    sprec, slevel = self.prec.get(a, ("right", 0))
+                    rprec, rlevel = self._rule_prec(p)
+                    if slevel > rlevel or (slevel == rlevel and rprec == "right"):
+                        act[a] = ("shift", shifts[a])
+                        if not rlevel:
+                            self.conflicts.append((s, a, "shift/reduce", "shift", p))
+                    elif slevel == rlevel and rprec == "nonassoc":
+                        act[a] = None
+                    else:
+                        act[a] = ("reduce", p)
+                        if not slevel and not rlevel:
+                            self.conflicts.append((s, a, "shift/reduce", "reduce", p))
+                else:
+                    act[a] = ("reduce", p)
+            for a, t in shifts.items():
+                if a not in act:
+                    act[a] = ("shift", t)
+            self.action.append(act)
+
+    def _rule_prec(self, pi):
+        lhs, rhs, pname, _l = self.prods[pi]
+        if pname is not None:
+            return self.prec.get(pname, ("right", 0))
+        for s in reversed(rhs):
+            if s not in self.nts:
+                return self.prec.get(s, ("right", 0))
+        return ("right", 0)
+
+    def accepts(self, tokens):
+        """run the automaton on token names; PLY's default reductions (a state whose only action is one reduction reduces without
+        reading the next token) do not change what is accepted"""
+        stack = [0]
+        toks = list(tokens) + ["$end"]
+        i = 0
+        steps = 0
+        while True:
+            steps += 1
+            if steps > 100000:
+                raise AnalysisError("LR simulation does not terminate")
+            a = self.action[stack[-1]].get(toks[i])
+            if a is None:
+                return False
+            if a[0] == "accept":
+                return True
+            if a[0] == "shift":
+                stack.append(a[1])
+                i += 1
+            else:
+                lhs, rhs, _p, _l = self.prods[a[1]]
+                if rhs:
+                    del stack[-len(rhs):]
+                g = self.goto.get((stack[-1], lhs))
+                if g is None:
+                    return False
+                stack.append(g)
